@@ -1,0 +1,30 @@
+//go:build verif
+
+package core
+
+import (
+	"github.com/nspcc-dev/neo-go/pkg/core/mpt"
+	"github.com/nspcc-dev/neo-go/pkg/util"
+)
+
+// This file is a test seam for the external verification harness (/verif).
+// It is compiled only with `-tags verif` and adds no behaviour to normal builds.
+
+// VerifDropMPTBatch leaves the state root module in the state in which the
+// error returns of storeBlock that follow AddMPTBatch leave it (next header's
+// PrevStateRoot mismatch, application log writer failure): the MPT batch made
+// of the given contract storage changes (keys carry the storage prefix byte,
+// a nil value is a deletion) is applied for the next height on a private
+// cache layer exactly as storeBlock does it, then the layer and the resulting
+// trie are dropped without UpdateCurrentLocal. Nothing is written to the
+// chain's own store. It returns the state root the refused block would have had.
+func (bc *Blockchain) VerifDropMPTBatch(changes map[string][]byte) (util.Uint256, error) {
+	bc.addLock.Lock()
+	defer bc.addLock.Unlock()
+	cache := bc.dao.GetPrivate()
+	_, sr, err := bc.stateRoot.AddMPTBatch(bc.BlockHeight()+1, mpt.MapToMPTBatch(changes), cache.Store)
+	if err != nil {
+		return util.Uint256{}, err
+	}
+	return sr.Root, nil
+}
